@@ -1,10 +1,12 @@
 pub mod common;
 pub mod c01;
+pub mod c02;
+pub mod c09;
 
 use crate::framework::Property;
 
 pub fn all() -> Vec<Box<dyn Property>> {
-    vec![Box::new(c01::C01)]
+    vec![Box::new(c01::C01), Box::new(c02::C02), Box::new(c09::C09)]
 }
 
 pub fn by_id(id: &str) -> Option<Box<dyn Property>> {
